@@ -164,6 +164,13 @@ pub enum Op {
     Cancel,
     /// serialize + deserialize into a fresh database (persist config only)
     RoundTrip,
+    /// create a new input struct with value v on this handle and read it back (C24)
+    NewInput(u8),
+    /// clone the handle, create n input structs through the clone, drop the clone: leaves a
+    /// partially filled page behind for other handles to pick up (C24)
+    Prefill(u8),
+    /// drop this thread's handle and continue on a fresh clone of it (C24; E2 reader threads only)
+    Reclone,
 }
 
 impl Ex {
